@@ -18,13 +18,18 @@ PROPERTY = "C04"
 ENGINE = "E4-transhistory"
 LEVEL = "exploration"
 RULE = ("Seeded modules (richgen: kind parameter wp, array bounds depending "
-        "on n, helper routine whose locals clash with the caller's names) x "
+        "on n, helper routine whose locals clash with the caller's names; "
+        "'kinds' variant: kind constants also in a module the helper imports, "
+        "PARAMETER arrays and constants depending on other constants) x "
         "histories of <=7 operations biased to symbol-creating "
         "transformations (ChunkLoop, LoopTiling2D, HoistLoopBoundExpr, "
         "HoistLocalArrays, InlineTrans, ArrayAssignment2Loops, "
         "Reference2ArrayRange, Sum/Product/Maxval/Minval2Loop, Matmul2Code, "
         "DotProduct2Code, Abs/Sign/Min/Max2Code, ReplaceInductionVariables, "
-        "LoopSwap, LoopFuse). Oracle after every accepted step and for the "
+        "LoopSwap, LoopFuse). Oracle (scoped-lookup identity of every "
+        "Reference and of every kind/bound/initial-value/kind-suffix link of "
+        "a declaration, declaration scan, gfortran) after every accepted "
+        "step and for the "
         "length-0 history. Non-trivial: >=1 accepted symbol-creating "
         "transformation. Distinct by (program digest, history pattern).")
 REAL_VS_STUB = {
@@ -37,7 +42,10 @@ ASSUMPTIONS = [
     "Only compiler errors of the declaration family count (no IMPLICIT "
     "type, duplicate/conflicting declaration, used before typed, "
     "non-constant in specification expression).",
-    "Programs are self-contained (no external modules)."]
+    "Programs are self-contained: the only module used (kinds_mod, 'kinds' "
+    "variant) is in the same file, so the compiler can resolve everything.",
+    "Two symbol objects imported from the same-named container under the "
+    "same original name denote the same entity (merge may keep either)."]
 
 CREATORS = ["ChunkLoopTrans", "LoopTiling2DTrans", "HoistLoopBoundExprTrans",
             "HoistLocalArraysTrans", "InlineTrans", "InlineTrans",
@@ -84,6 +92,91 @@ def check_bindings(root):
                 continue
             return ("reference-captured-by-another-symbol",
                     {"name": sym.name})
+    return check_declaration_links(root)
+
+
+def _same_import(one, two):
+    """Two symbol objects that denote the same entity: both imported from
+    the same-named container under the same original name (merging tables
+    may keep either object)."""
+    i1, i2 = getattr(one, "interface", None), getattr(two, "interface", None)
+    c1 = getattr(i1, "container_symbol", None)
+    c2 = getattr(i2, "container_symbol", None)
+    if c1 is None or c2 is None:
+        return False
+    o1 = getattr(i1, "orig_name", None) or one.name
+    o2 = getattr(i2, "orig_name", None) or two.name
+    return c1.name.lower() == c2.name.lower() and o1.lower() == o2.lower()
+
+
+def check_declaration_links(root):
+    """The names a *declaration* uses (kind parameter, array bounds, initial
+    value, kind suffix of a literal) must resolve, from the table that holds
+    the declaration, to the very symbols the declaration is linked to."""
+    from psyclone.psyir.nodes import (ScopingNode, Reference, Literal, Node)
+    from psyclone.psyir.symbols import DataSymbol, Symbol
+
+    def resolves(table, sym, what, owner):
+        try:
+            found = table.lookup(sym.name)
+        except KeyError:
+            return ("declaration-uses-symbol-not-in-scope",
+                    {"name": sym.name, "used_by": owner, "as": what})
+        if found is not sym and not _same_import(found, sym):
+            return ("declaration-captured-by-another-symbol",
+                    {"name": sym.name, "used_by": owner, "as": what})
+        return None
+
+    def scan_expr(table, expr, what, owner):
+        for node in expr.walk((Reference, Literal)):
+            if isinstance(node, Reference):
+                if type(node.symbol).__name__ == "IntrinsicSymbol":
+                    continue
+                bad = resolves(table, node.symbol, what, owner)
+            else:
+                prec = getattr(node.datatype, "precision", None)
+                if not isinstance(prec, Symbol):
+                    continue
+                bad = resolves(table, prec, what + "-kind-suffix", owner)
+            if bad:
+                return bad
+        return None
+
+    for scope in root.walk(ScopingNode):
+        table = scope.symbol_table
+        for sym in table.symbols:
+            if not isinstance(sym, DataSymbol):
+                continue
+            dtype = sym.datatype
+            prec = getattr(dtype, "precision", None)
+            if isinstance(prec, Symbol):
+                bad = resolves(table, prec, "kind", sym.name)
+                if bad:
+                    return bad
+            for dim in getattr(dtype, "shape", None) or []:
+                for bound in (getattr(dim, "lower", None),
+                              getattr(dim, "upper", None)):
+                    if isinstance(bound, Node):
+                        bad = scan_expr(table, bound, "array-bound",
+                                        sym.name)
+                        if bad:
+                            return bad
+            if sym.initial_value is not None:
+                bad = scan_expr(table, sym.initial_value, "initial-value",
+                                sym.name)
+                if bad:
+                    return bad
+    # kind suffixes of literals in the executable part
+    for lit in root.walk(Literal):
+        prec = getattr(lit.datatype, "precision", None)
+        if isinstance(prec, Symbol):
+            try:
+                table = lit.scope.symbol_table
+            except Exception:
+                continue
+            bad = resolves(table, prec, "literal-kind-suffix", "statement")
+            if bad:
+                return bad
     return None
 
 
